@@ -1,3 +1,4 @@
+import JsonPathVerif.OuterBlank
 import JsonPathVerif.Lex.Int
 import JsonPathVerif.Lex.Names
 import JsonPathVerif.Lex.Tokens
@@ -66,6 +67,15 @@ example : Spec.wtSegs [.selector (.filter (.atom (.cmp .eq (.fn (.length (.test 
     Spec.wtSegs [.selector (.filter (.atom (.test (.fn (.length (.test (.rel [])))) false)))] = false ∧
     Spec.wtSegs [.selector (.filter (.atom (.cmp .eq (.fn (.length (.test (.rel [.selector (.name "a".toList)])))) (.lit (.int 2)))))] = true := by
   decide
+
+/-- blank space before `$` or after the last segment, for ALL strings: rejected, whatever lies between (RFC 9535 2.1.1: a query
+begins with the root identifier; the ABNF has no trailing `S`) -/
+theorem C07_partial_outer_blanks (s : Str) (c : Char) (hb : isBlank c = true) :
+    parseJsonPath (c :: s) = err ∧ parseJsonPath (s ++ [c]) = err := outer_blank_rejected s c hb
+/-- … and the oracle classifies every string with a leading blank as invalid -/
+theorem leading_blank_is_invalid (s : Str) (c : Char) (hb : isBlank c = true) : Rfc.verdict (c :: s) = .invalid :=
+  leading_blank_invalid s c hb
+example : isBlank ' ' = true ∧ isBlank '\t' = true ∧ isBlank '\n' = true ∧ isBlank '\r' = true ∧ isBlank (Char.ofNat 0xA0) = false := by decide
 
 /-- blanks, leading zeros and `-0` are not `int` lexemes -/
 example : rfcInt "1 2".toList = some " 2".toList ∧ rfcInt "- 1".toList = none ∧ rfcInt "-0".toList = none ∧
